@@ -52,7 +52,7 @@ func c08Bounds(c *Ctx) {
 	}
 	n := 0
 	for _, s := range sites {
-		if !framingFns[shortFn(s.Fn)] {
+		if !framingFns[shortFn(s.Fn)] && !c.onlyCalledFromAny(s.Fn, framingFns, 0) {
 			continue
 		}
 		n++
@@ -87,7 +87,7 @@ func c08Bounds(c *Ctx) {
 	if nSl == 0 {
 		c.Undecided(rule, "readHeader payload-slice", rh.Pos(), "no payload slice found in readHeader")
 	}
-	c.Floor(rule, 4, "readMessage slices + readHeader payload")
+	c.Floor(rule, 3, "readMessage slices + readHeader payload (four on the pinned tree; a framer that reads through one helper has three)")
 	_ = n
 }
 
@@ -198,6 +198,14 @@ func isHighOf(slice, v ssa.Value) bool {
 // fixedLen: the slice is (a reslice of) a buffer made with a constant length.
 func fixedLen(v ssa.Value) (int64, bool) {
 	v = strip(v)
+	if a, ok := lazyBuffer(v); ok {
+		return fixedLenNoPhi(a)
+	}
+	return fixedLenNoPhi(v)
+}
+
+func fixedLenNoPhi(v ssa.Value) (int64, bool) {
+	v = strip(v)
 	for i := 0; i < 4; i++ {
 		if n, ok := constSliceLen(v); ok {
 			return n, true
@@ -225,7 +233,7 @@ func c08Reassembly(c *Ctx) {
 		if isNil(errV) {
 			continue
 		}
-		for _, o := range origins(errV) {
+		for _, o := range errOrigins(errV, 0) {
 			if o.Kind != "call" {
 				continue
 			}
@@ -243,6 +251,15 @@ func c08Reassembly(c *Ctx) {
 					}
 				} else if sl, ok := strip(arg(o.Call, 0)).(*ssa.Slice); ok {
 					if _, isFixed := fixedLen(sl.X); isFixed {
+						stage = "continuation read"
+					}
+				} else if isCont, notCont := continuationArg(arg(o.Call, 0)); isCont && notCont != nil {
+					// one readHeader call for both attempts: this return belongs to the continuation
+					// when it is unreachable on the paths on which the append was not selected
+					if !reachWithoutMarkerAvoiding(fn, r, noMarker, func(cond ssa.Value, branch bool) bool {
+						core, _ := normCond(cond)
+						return !notCont(cond, branch) && notCont(cond, !branch) && core != nil
+					}) {
 						stage = "continuation read"
 					}
 				}
@@ -411,4 +428,64 @@ func headerTests(c *Ctx, rule string) {
 	if n < 3 {
 		c.Undecided(rule, "readHeader tests", fn.Pos(), "found %d of the three length tests", n)
 	}
+}
+
+// errOrigins: origins of an error value, looking through fmt.Errorf / errors.Join wrappers to the
+// errors they wrap (their error-typed operands).
+func errOrigins(v ssa.Value, depth int) []Origin {
+	var out []Origin
+	for _, o := range origins(v) {
+		if o.Kind == "call" && depth < 3 {
+			n := calleeName(o.Call)
+			if n == "fmt.Errorf" || n == "errors.Join" {
+				wrapped := false
+				args := o.Call.Common().Args
+				if len(args) > 0 {
+					if elems, ok := sliceLitElems(args[len(args)-1]); ok {
+						for _, e := range elems {
+							ev := strip(e)
+							if mi, isMI := strip(e).(*ssa.MakeInterface); isMI {
+								ev = mi.X
+							} else if ci, isCI := strip(e).(*ssa.ChangeInterface); isCI {
+								ev = ci.X
+							}
+							if types.Implements(ev.Type(), errorIface()) {
+								out = append(out, errOrigins(ev, depth+1)...)
+								wrapped = true
+							}
+						}
+					}
+				}
+				if wrapped {
+					continue
+				}
+			}
+			// a first-party helper that hands back the error of what it calls
+			if call, isCall := o.Call.(*ssa.Call); isCall {
+				if h := call.Call.StaticCallee(); h != nil && IsFirstParty(h) && h.Blocks != nil && fnName(h) != protoPkg+".readHeader" {
+					expanded := false
+					for _, r := range returnsOf(h) {
+						if o.Index >= len(r.Results) {
+							continue
+						}
+						rv0 := unspill(r.Results[o.Index])
+						if isNil(strip(rv0)) {
+							continue
+						}
+						out = append(out, errOrigins(rv0, depth+1)...)
+						expanded = true
+					}
+					if expanded {
+						continue
+					}
+				}
+			}
+		}
+		out = append(out, o)
+	}
+	return out
+}
+
+func errorIface() *types.Interface {
+	return types.Universe.Lookup("error").Type().Underlying().(*types.Interface)
 }
